@@ -256,8 +256,12 @@ class Output(BaseOutput):
         if self.lonlat:
             lon, lat = self.xy2ll(state.X, state.Y)
             if self.layout == "dense":
-                self.nc.variables["lon"][self.local_record_count, :] = lon
-                self.nc.variables["lat"][self.local_record_count, :] = lat
+                self.nc.variables["lon"][self.local_record_count, has_value] = lon[
+                    state.alive
+                ]
+                self.nc.variables["lat"][self.local_record_count, has_value] = lat[
+                    state.alive
+                ]
             elif self.layout == "sparse":
                 self.nc.variables["lon"][start:end] = lon
                 self.nc.variables["lat"][start:end] = lat
